@@ -838,8 +838,12 @@ class ApplicationStatus:
             raise ApplicationStatusParseError(f'no match for expression={node.s}')
         # handle any/all functions
         if type(node) is ast.Call:
+            if type(node.func) is not ast.Name:
+                raise ApplicationStatusParseError(f'unsupported function={type(node.func).__name__}')
             if node.func.id not in ['all', 'any']:
                 raise ApplicationStatusParseError(f'unsupported function={node.func.id}')
+            if len(node.args) != 1 or node.keywords:
+                raise ApplicationStatusParseError(f'{node.func.id} expects exactly one argument')
             args_eval = self.evaluate(node.args[0])
             if type(args_eval) is bool:
                 args_eval = [args_eval]
@@ -903,7 +907,10 @@ class ApplicationStatus:
     def _get_matches(self, pattern_name: str) -> List[str]:
         """ Return the process names matching the pattern. """
         results = []
-        pattern = re.compile(r'^%s$' % pattern_name)
+        try:
+            pattern = re.compile(r'^%s$' % pattern_name)
+        except re.error as exc:
+            raise ApplicationStatusParseError(f'invalid pattern={pattern_name} ({exc})')
         for name in self.processes.keys():
             if pattern.match(name):
                 results.append(name)
